@@ -129,9 +129,12 @@ struct rec_sink : ftp::output_stream
 struct mem_source : ftp::input_stream
 {
     std::string data; std::size_t pos = 0;
+    std::vector<std::size_t> chop; std::size_t call = 0;      // chop: the source returns at most chop[k mod n] bytes at its k-th read
     std::size_t read(char *buf, std::size_t size) override
     {
-        std::size_t got = std::min(size, data.size() - pos);
+        std::size_t want = chop.empty() ? size : std::min(size, std::max<std::size_t>(1, chop[call % chop.size()]));
+        call++;
+        std::size_t got = std::min(want, data.size() - pos);
         std::copy(data.data() + pos, data.data() + pos + got, buf);
         pos += got; return got;
     }
@@ -243,6 +246,7 @@ std::string run(const std::vector<std::string> & tok)
                     if (a.size() < 4 || !H(2, s1) || !parse_payload(a[3], src.data)) return "bad-op";
                     ftp::transfer_callback *pcb = nullptr;
                     if (a.size() > 4 && a[4] != "-") { cb.polls = a[4].substr(1); cb.i = 0; cb.sticky = false; pcb = &cb; }
+                    src.chop = a.size() > 5 ? dotlist(a[5]) : std::vector<std::size_t>(); src.call = 0;
                     if (a[1] == "APPE") ret = "ret:replies:" + render_replies(cl.append_file(src, s1, pcb));
                     else ret = "ret:replies:" + render_replies(cl.upload_file(src, s1, a[1] == "STOU", pcb));
                 }
